@@ -27,6 +27,10 @@ type Lowerer struct {
 	registry *registry.TypeRegistry   // Deduplicates types
 	types    map[string]ir.TypeHandle // Named type lookup
 
+	// structAligns records AlignOf(S) for each lowered struct, including the
+	// effect of explicit @align(N) member attributes, which the IR does not keep.
+	structAligns map[ir.TypeHandle]uint32
+
 	// Variable resolution
 	globals           map[string]ir.GlobalVariableHandle
 	locals            map[string]ir.ExpressionHandle
@@ -733,7 +737,11 @@ func (l *Lowerer) lowerStruct(s *parser.StructDecl) error {
 	}
 	// Round struct size up to alignment of largest member
 	structSize := (offset + maxAlign - 1) &^ (maxAlign - 1)
-	l.registerNamedType(s.Name, ir.StructType{Members: members, Span: structSize})
+	handle := l.registerNamedType(s.Name, ir.StructType{Members: members, Span: structSize})
+	if l.structAligns == nil {
+		l.structAligns = make(map[ir.TypeHandle]uint32)
+	}
+	l.structAligns[handle] = maxAlign
 	return nil
 }
 
@@ -838,6 +846,10 @@ func (l *Lowerer) typeAlignmentAndSize(handle ir.TypeHandle) (align, size uint32
 			if memberAlign > maxMemberAlign {
 				maxMemberAlign = memberAlign
 			}
+		}
+		// AlignOf(S) is the maximum of the members' alignments *after* @align(N).
+		if a, ok := l.structAligns[handle]; ok && a > maxMemberAlign {
+			maxMemberAlign = a
 		}
 		return maxMemberAlign, t.Span
 
